@@ -853,4 +853,56 @@ example : Cred.presenterIsCredentialSubject Cred.Cfg.fixed ⟨.jwt, some "did:x:
 example : Cred.presenterIsCredentialSubject Cred.Cfg.fixed ⟨.jwt, some "did:x:a#k", false, 0, some "did:x:a", [some "did:x:a", some "did:x:b"]⟩ = .err "not-same-subject" := by decide
 example : Cred.presenterIsCredentialSubject Cred.Cfg.fixed ⟨.ldp, none, true, 1, some "did:x:b", [some "did:x:a"]⟩ = .ok none := by decide
 
+
+/-! ### crypto/jwx.go JWTKidAlg, ParseJWT, ParseJWS -/
+
+theorem fact_jwx : Sites.jwxCfg = Jwx.Cfg.fixed := by decide
+
+/-- no token makes JWTKidAlg / ParseJWT / ParseJWS panic: any parse result, any number of signatures (0 included), any key
+    function, any algorithm -/
+theorem jwx_total (i : Jwx.In) :
+    ∀ s, Jwx.jwtKidAlg Sites.jwxCfg i ≠ .panic s ∧ Jwx.parseJWT Sites.jwxCfg i ≠ .panic s ∧ Jwx.parseJWS Sites.jwxCfg i ≠ .panic s := by
+  intro s
+  rw [fact_jwx]
+  have hs : ∀ site n s, Jwx.sigCheck true site n ≠ .panic s := by
+    intro site n s; unfold Jwx.sigCheck; simp only [if_true]; split <;> (intro h; cases h)
+  have h1 : ∀ s, Jwx.jwtKidAlg Jwx.Cfg.fixed i ≠ .panic s := by
+    intro s; unfold Jwx.jwtKidAlg; split
+    · intro h; cases h
+    · exact hs _ _ s
+  refine ⟨h1 s, ?_, ?_⟩
+  · unfold Jwx.parseJWT
+    split
+    · intro h; cases h
+    · rename_i s' hs'; exact absurd hs' (h1 s')
+    · repeat' split
+      all_goals (intro h; cases h)
+  · unfold Jwx.parseJWS
+    split
+    · intro h; cases h
+    · split
+      · intro h; cases h
+      · rename_i s' hs'; exact absurd hs' (hs _ _ s')
+      · repeat' split
+        all_goals (intro h; cases h)
+
+/-- a token is accepted ONLY IF the library parsed it, it carries exactly one signature, the key function knows the kid, the
+    algorithm is on the node's allow-list AND fits the key, and the library verified the signature with that key -/
+theorem jwx_accepts_only_verified (i : Jwx.In) :
+    (Jwx.parseJWT Sites.jwxCfg i = .ok () ∨ Jwx.parseJWS Sites.jwxCfg i = .ok ()) →
+    i.parseOk = true ∧ i.nSigs = 1 ∧ i.keyOk = true ∧ i.algSupported = true ∧ i.algFitsKey = true ∧ i.verifyOk = true := by
+  rw [fact_jwx]
+  intro h
+  cases hp : i.parseOk <;> cases hk : i.keyOk <;> cases ha : i.algSupported <;> cases hf : i.algFitsKey <;> cases hv : i.verifyOk <;>
+    simp [Jwx.parseJWT, Jwx.parseJWS, Jwx.jwtKidAlg, Jwx.sigCheck, Jwx.Cfg.fixed, hp, hk, ha, hf, hv] at h ⊢ <;>
+    (by_cases hn : i.nSigs = 1 <;> simp_all)
+
+theorem jwx_guards_needed :
+    Jwx.parseJWT ⟨false, true⟩ ⟨true, 0, true, true, true, true⟩ = .panic "JWTKidAlg:j.Signatures()[0]" ∧
+    Jwx.parseJWS ⟨true, false⟩ ⟨true, 0, true, true, true, true⟩ = .panic "ParseJWS:signatures[0]" ∧
+    Jwx.parseJWS Jwx.Cfg.fixed ⟨true, 2, true, true, true, true⟩ = .err "signatures" := by decide
+
+example : Jwx.parseJWT Jwx.Cfg.fixed ⟨true, 1, true, true, true, true⟩ = .ok () := by decide
+example : Jwx.parseJWS Jwx.Cfg.fixed ⟨true, 1, true, true, true, true⟩ = .ok () := by decide
+
 end Nuts.C19.Props
